@@ -11,6 +11,7 @@ import MPilot.Model.Eems2
 import MPilot.Model.Registry
 import MPilot.Model.Csv
 import MPilot.Model.NetCdf
+import MPilot.Model.Cli
 
 open MPilot MPilot.Codec
 
@@ -314,6 +315,27 @@ def handleNcWrite (toks : List String) : String :=
   | some rs => " ".intercalate ((ncWrite rs).map showArr)
   | none => "bad-nc"
 
+/-- `cli <exists 0|1> <hex path> <hex file text> (done | other | mp <hex str(ex)> <is ProgramError 0|1> <lineno|->)`:
+what the command-line tool writes and how it exits -/
+def handleCli (toks : List String) : String :=
+  let res : Option String := do
+    match toks with
+    | ex :: hp :: ht :: rest =>
+      let path ← unhex hp
+      let text ← unhex ht
+      let outcome : Cli.Outcome ← match rest with
+        | ["done"] => some .done
+        | ["other"] => some (.other "other")
+        | ["mp", hm, ip, ln] => do
+            let msg ← unhex hm
+            let lineno : Option Nat ← if ln == "-" then some none else ln.toNat?.map some
+            some (.mpError msg.toList (ip == "1") lineno)
+        | _ => none
+      let r := Cli.main (ex == "1") path.toList text.toList (fun _ => outcome)
+      pure s!"exit={r.exit} crash={r.crash.getD "-"} stderr={hex (String.ofList r.stderr)} src={hex (String.ofList (Cli.source text.toList))}"
+    | _ => none
+  res.getD "bad-cli"
+
 def handle (line : String) : String :=
   match (line.trimAscii.toString.splitOn " ").filter (· != "") with
   | "exec" :: rest => handleExec rest
@@ -329,6 +351,7 @@ def handle (line : String) : String :=
   | "csvread" :: rest => handleCsvRead rest
   | "csvrows" :: rest => handleCsvRows rest
   | "csvwrite" :: rest => handleCsvWrite rest
+  | "cli" :: rest => handleCli rest
   | "ping" :: _ => "pong"
   | _ => "bad-op"
 
